@@ -178,8 +178,58 @@ def main():
                   "disagreements": ndiff, "predicate_failures": npred, "predicate_failures_by_kind": dict(failures), "status_histogram": dict(stats), "solved_by_planner": dict(solved),
                   "fully_covered_by_accepted_motions": dict(covered_all), "class_A": sorted(A), "skipped": skipped, "excluded_planners": EXCLUDED,
                   "crashed_before_report": [(j, rc) for j, rc, e in crashed][:20]})
+    # ---- EIT*'s multi-resolution edge validation, called directly on the start -> goal edge of a 1-D problem through
+    #      generated histories of sparse levels: the tested positions equal those of EitModel (whose whitelisting theorem
+    #      is proved), and an edge that the planner's isValid() accepts does not pass through an obstacle wider than two
+    #      resolution lengths
+    import struct
+    try:
+        edrv = c.build_driver("eit_driver", link_ompl=True)
+    except vf.BuildError as ex:
+        c.broken.append("correspondence C01: eit_driver does not build against /repo (EITstar internals renamed?): " + str(ex)[-300:]); c.finish()
+    rng = c.rng; elines = ["EDGE 30 0.01 0.19 4 9 19", "EDGE 8 2 3 1 3"]
+    for i in range(300 if quick else 6000):
+        F = rng.choice([2, 3, 5, 8, 10, 16, 21, 30, 33, 47, 64, 100]) if i % 3 else rng.randint(2, 70)
+        c0 = rng.choice([1, 1, 1, 2, 3, 4, 5, 7]); lv = []; cur = c0
+        for _ in range(rng.randint(0, 5)): lv.append(cur); cur = 2 * cur + 1
+        if rng.random() < 0.3: lo, hi = 2.0, 3.0
+        else:
+            w = rng.choice([0.5, 1.1, 2.2, 3.0, 6.0]) / F; lo = rng.choice([0.0005, rng.uniform(0.0005, max(0.001, 1 - w))]); hi = min(lo + w, 0.9995)     # never covers the start (0) or the goal (1)
+        elines.append("EDGE %d %r %r %s" % (F, lo, hi, " ".join(map(str, lv))))
+    rce, oe, ee, se = vf.sh([edrv], input="\n".join(elines) + "\n", timeout=600); c.step("correspond:impl-eitstar-edge", edrv, se, rce == 0)
+    rcm, om, em, sm = vf.sh([model, "eit"], input="\n".join(elines) + "\n", timeout=600); c.step("correspond:model-eitstar-edge", model + " eit", sm, rcm == 0)
+    def blocks(txt):
+        out = []; cur = None
+        for l in txt.split("\n"):
+            if l.startswith("full") or l.startswith("skip"): cur = [l]; out.append(cur)
+            elif cur is not None and l.strip(): cur.append(l)
+        return out
+    ib, mb = blocks(oe), blocks(om)
+    neit = neit_bad = 0
+    for k, el in enumerate(elines):
+        a = ib[k] if k < len(ib) else ["<no output>"]; b = mb[k] if k < len(mb) else ["<no output>"]
+        neit += 1
+        def canon_impl(l):
+            head, _, xs = l.partition("|")
+            return head.split(), [struct.unpack("<d", struct.pack("<Q", int(h, 16)))[0] for h in xs.split()]
+        def canon_model(l):
+            head, _, xs = l.partition("|")
+            return head.split(), [int(t.split("/")[0]) / int(t.split("/")[1]) for t in xs.split()]
+        same = len(a) == len(b) and a[0] == b[0] and all(canon_impl(x) == canon_model(y) for x, y in zip(a[1:], b[1:]))
+        if not same:
+            neit_bad += 1; ndiff += 1
+            if first_diff is None: first_diff = (el, "EIT* edge validation tested %s, EitModel %s" % (" ; ".join(a)[:300], " ; ".join(b)[:300]))
+        fin = [x for x in a if x.startswith("final")]
+        if fin:
+            w = elines[k].split(); F = int(w[1]); lo, hi = float(w[2]), float(w[3])
+            acc = fin[0].split()[1] == "1"
+            if acc and 0 < lo and hi < 1 and (hi - lo) * F > 2.0:
+                npred += 1; failures["eitstar-edge"] += 1
+                if first_pred is None: first_pred = (el, "EIT*'s isValid() accepts (and whitelists) an edge of %d resolution segments that passes through an obstacle %.2f resolution lengths wide" % (F, (hi - lo) * F))
+    c.cov.update({"eitstar_edge_histories": neit, "eitstar_edge_disagreements": neit_bad})
     c.cov["samples"] = jobs[:3]
-    c.cov["trusted_base"] += ["extraction (ExtrOcamlBasic) + extract/ledger_driver.ml; harness/planner_driver.cpp + planning_common.h (logging validity checker and motion validator, state numbering by exact coordinates, dense re-sampling of every path segment at 1/8 resolution length)"]
+    c.cov["trusted_base"] += ["harness/eit_driver.cpp reaches EITstar::couldBeValid / isValid by re-declaring private as public for that header; extract/eit_driver.ml",
+                             "extraction (ExtrOcamlBasic) + extract/ledger_driver.ml; harness/planner_driver.cpp + planning_common.h (logging validity checker and motion validator, state numbering by exact coordinates, dense re-sampling of every path segment at 1/8 resolution length)"]
     c.assumptions += ["partial: soundness of the admission rule and of the library's path check is proved; that each planner's code only produces admissible reports is checked per run, not proved",
                       "validity depends on the first two coordinates only; wall-clock bounded runs are not bit-reproducible for anytime planners (the RUN line + seed is the replay)"]
     # a run that never returned (hang, crash) is outside C01's statement ("whenever a planner returns a solution status");
